@@ -15,6 +15,11 @@ type BasicPrivateIssuer struct {
 }
 
 func NewBasicPrivateIssuer(key *oprf.PrivateKey) *BasicPrivateIssuer {
+	if key != nil {
+		// The key caches its public key on first use; compute it now so that
+		// concurrent calls on the issuer only read the key.
+		key.Public()
+	}
 	return &BasicPrivateIssuer{
 		tokenKey: key,
 	}
